@@ -257,7 +257,7 @@ func runConv(c *Ctx) {
 			if lp.Exit == nil {
 				continue
 			}
-			short := lp.Holds("len("+r+")−"+i, token.LEQ, "0")
+			short := newProver(p, t, lp).g.entailsLE("len("+r+")", i, 0)
 			isNull := lp.Has("type("+r+"["+i+"])", token.EQL, "nil", true)
 			if !short && !isNull {
 				continue
